@@ -682,10 +682,10 @@ func init() {
 		Rule:   "models with finite ordinates in XY/XYZ/XYM/XYZM/Layout(5,6,8), nested collections with mixed member layouts: geojson.Marshal output must be valid JSON for an independent RFC 8259 reader, denote the same type/nesting/numbers (numbers converted exactly), and Unmarshal / Geometry.Decode must return the model after the format's carve-outs (XYM->XYZ, empties->default layout; non-XY with empty first component and multipoints with empty members need not read back but must give an error or a well-formed geometry); Features (ids absent/ascii/unicode/escapes/numeric-looking, bbox of 4/6 numbers or none, random JSON property maps, null geometry) and FeatureCollections round trip; numeric ids normalise to their decimal string; decoders fed valid documents, structure-aware mutations, byte mutations, deep nesting/huge exponents and random bytes must not panic and must return an error or well-formed geometries. distinct_nontrivial = distinct shape signatures + feature shapes + numeric ids",
 		Assume: []string{"reference JSON reader in harness/ref (RFC 8259 grammar, RFC 7946 appendix A vectors)", "properties are compared through encoding/json canonical output"},
 		Classes: []fw.Class{
-			{Name: "geometry-roundtrip", Quick: 40000, Thorough: 1500000, Run: c07Geometry},
-			{Name: "features", Quick: 15000, Thorough: 500000, Run: c07Feature},
+			{Name: "geometry-roundtrip", Quick: 80000, Thorough: 1500000, Run: c07Geometry},
+			{Name: "features", Quick: 40000, Thorough: 500000, Run: c07Feature},
 			{Name: "numeric-ids", Quick: 3000, Thorough: 100000, Run: c07NumericID},
-			{Name: "decoders", Quick: 150000, Thorough: 8000000, Run: c07Decoders, RawReplay: c07RawReplay},
+			{Name: "decoders", Quick: 300000, Thorough: 8000000, Run: c07Decoders, RawReplay: c07RawReplay},
 		},
 		Extra: fuzzExtra("C07", 2000000),
 		Require: []string{"held_results_rechecked", "roundtrips_compared", "format_cannot_carry_back", "with_empty_component_before_nonempty", "kind_GeometryCollection", "features", "feature_null_geometry", "feature_id_absent", "feature_collections", "numeric_ids",
